@@ -33,19 +33,26 @@ class Source(PartHandler):
 
     def __init__(self, name = None, part_generator = None, cycle_time = 0.0,
                  starting_parts = float('inf')):
-        super().__init__(name, None, cycle_time, value = 0)
-
-        if part_generator == None:
-            self._part_generator = PartGenerator(name_prefix = f'Part_{self.id}')
-        else:
+        if part_generator != None:
             assert_is_instance(part_generator, PartGenerator)
-            self._part_generator = part_generator
+        self._part_generator = part_generator
 
         self._max_produced_parts = starting_parts
         self._cost_of_produced_parts = 0
         self._produced_parts = 0
+        # Registers with the System which will initialize the object
+        # immediately if the simulation is already in progress.
+        super().__init__(name, None, cycle_time, value = 0)
+        self._set_default_part_generator()
+
+    def _set_default_part_generator(self):
+        # The default generator is named after the Source's ID which
+        # is assigned by Asset.__init__.
+        if self._part_generator == None:
+            self._part_generator = PartGenerator(name_prefix = f'Part_{self.id}')
 
     def initialize(self, env):
+        self._set_default_part_generator()
         super().initialize(env)
         self._schedule_finish_cycle()
 
